@@ -87,6 +87,10 @@ func (k Keeper) ValidateValidatorStaking(ctx sdk.Ctx, validator types.Validator,
 	if !validator.IsUnstaked() {
 		return types.ErrValidatorStatus(k.codespace)
 	}
+	// a validator convicted of double signing never stakes again
+	if info, found := k.GetValidatorSigningInfo(ctx, validator.Address); found && info.Tombstoned {
+		return types.ErrValidatorTombstoned(k.codespace)
+	}
 	if amount.LT(sdk.NewInt(k.MinimumStake(ctx))) {
 		return types.ErrMinimumStake(k.codespace)
 	}
